@@ -53,6 +53,29 @@ Example C05_example :
   = Some [Some (tnum 1); Some (tnum 2); Some (tnum 3)].
 Proof. vm_compute. reflexivity. Qed.
 
+(* KNOWN FINDING (dfs_order_after_reification).  The theorems above are about the stream of the dfs
+   block.  The sequence a *query* reports is that stream followed by the reification conjunction the
+   query macro appends, which interleaves: its cost depends on the answer, so an answer that needs
+   more reification steps (q bound to a list) is overtaken by a later cheap one.  The query-level
+   reading of the property is refuted by this witness: dfs { cond { q == [3], true } } reports the
+   unbound answer of the second clause first. *)
+Definition C05_reported (body : list goal) : list (option term) * run_end :=
+  let '(g, st) := query_goal lib_defs 1 [100] body in
+  let r := run_query lib_defs 10 3000 1 (start lib_defs sfuel g st) [] in
+  (map (fun a => nth_error (a_terms (fst a)) 0) (fst (fst r)), snd (fst r)).
+Example C05_query_order_refuted :
+  exists v, C05_reported [GDfs [[GCond [[GEq (TVar 100 false) (list_term [tnum 3])]; [GTrue]]]]]
+            = ([Some (TVar v true); Some (list_term [tnum 3])], EDone).
+Proof. eexists. vm_compute. reflexivity. Qed.
+(* ... whereas the block's own stream is in order (what C05_disjunction_order states) *)
+Example C05_block_order :
+  option_map (map (fun st => walk_star dfuel (st_smap st) (TVar 100 false)))
+    (drain lib_defs 400 (start lib_defs sfuel
+       (fst (elab lib_defs efuel BFS [(100, TVar 100 false)] (GDfs [[GCond [[GEq (TVar 100 false) (list_term [tnum 3])]; [GTrue]]]]) 101))
+       (empty_state 101)))
+  = Some [Some (list_term [tnum 3]); Some (TVar 100 false)].
+Proof. vm_compute. reflexivity. Qed.
+
 Check C05_delivered_is_admissible : forall defs n s ys, runs (startq defs) n s ys SEmpty -> ansS (startq defs) s ys.
 Check C05_disjunction_order : forall defs m n st gs zs,
   ansS (start defs (S m)) (start defs (S n) (CConde DFS gs) st) zs ->
